@@ -111,6 +111,17 @@ pub fn oracle(c: &PuCtx, rec: &mut Rec) {
         }
         PuOp::Route { u, hops, amt, slip, .. } => {
             rec.validated += 1;
+            // the route's own effect on every constant-product pool it touched (a pool visited twice must still not lose value)
+            for (_, _, pid) in hops.iter() {
+                if let (Some(p0), Some(p1)) = (c.pre.pool(pid), c.post.pool(pid)) {
+                    if let pm::PoolType::ConstantProduct = p0.pool_info.pool_type {
+                        let k = |p: &pm::PoolInfoResponse| big(p.pool_info.assets[0].amount.u128()) * big(p.pool_info.assets[1].amount.u128());
+                        if k(p1) < k(p0) {
+                            rec.viol("C03_route_reduced_pool_value", format!("pool {pid}: reserves {:?} -> {:?} through {:?}", p0.pool_info.assets, p1.pool_info.assets, c.op));
+                        }
+                    }
+                }
+            }
             let cfg = cfg();
             with_scratch(&cfg, c.s0, |w2| {
                 let mut a = *amt;
